@@ -6,7 +6,8 @@
 // usage: neutralfuzz -dir <scratch repo> -pkg ./internal/wire -func <name|*> -t <transform>
 // transforms: rename, invert, swapeq, negform, demorgan, parens, constextract, hoistcond,
 // guard2else, switch2if, if2switch, retlocal, varform, reorder, splitinit, mergeinit, hoistarg,
-// ret2else, splitand, lencmp, incr, boolret, predfunc, rangeidx
+// ret2else, splitand, lencmp, incr, boolret, predfunc, rangeidx,
+// elsenest, swapand, kvorder, caseorder, inlinelocal, renamefile
 package main
 
 import (
@@ -19,6 +20,7 @@ import (
 	"go/token"
 	"go/types"
 	"os"
+	"path/filepath"
 	"strconv"
 	"strings"
 
@@ -42,6 +44,23 @@ func main() {
 	p := pkgs[0]
 	changed := map[*ast.File]bool{}
 	n := 0
+	if *tr == "renamefile" {
+		// every source file of the package gets a new name (the order of files in the package changes)
+		for _, f := range p.Syntax {
+			name := p.Fset.File(f.Pos()).Name()
+			dir, base := filepath.Split(name)
+			if strings.HasSuffix(base, "_test.go") {
+				continue
+			}
+			if err := os.Rename(name, dir+"zz_"+strings.TrimSuffix(base, ".go")+"_moved.go"); err != nil {
+				fmt.Fprintln(os.Stderr, err)
+				os.Exit(2)
+			}
+			n++
+		}
+		fmt.Printf("%d sites rewritten\n", n)
+		return
+	}
 	if *tr == "reorder" {
 		// reverse the order of the function declarations of every file (text chunks, comments travel with their declaration)
 		for _, f := range p.Syntax {
@@ -865,6 +884,171 @@ func apply(p *packages.Package, f *ast.File, fd *ast.FuncDecl, tr string) int {
 			n++
 			return true
 		})
+	case "elsenest":
+		// else if c {…}  →  else { if c {…} }
+		ast.Inspect(fd.Body, func(nd ast.Node) bool {
+			is, ok := nd.(*ast.IfStmt)
+			if !ok {
+				return true
+			}
+			if in, ok := is.Else.(*ast.IfStmt); ok {
+				is.Else = &ast.BlockStmt{List: []ast.Stmt{in}}
+				n++
+			}
+			return true
+		})
+	case "swapand":
+		// a && b → b && a, a || b → b || a when both operands are comparisons of identifiers and literals only
+		simple := func(e ast.Expr) bool {
+			be, ok := ast.Unparen(e).(*ast.BinaryExpr)
+			if !ok {
+				return false
+			}
+			switch be.Op {
+			case token.EQL, token.NEQ, token.LSS, token.GTR, token.LEQ, token.GEQ:
+			default:
+				return false
+			}
+			leaf := func(x ast.Expr) bool {
+				switch y := ast.Unparen(x).(type) {
+				case *ast.Ident:
+					return y.Name != "nil"
+				case *ast.BasicLit:
+					return true
+				}
+				return false
+			}
+			return leaf(be.X) && leaf(be.Y)
+		}
+		ast.Inspect(fd.Body, func(nd ast.Node) bool {
+			be, ok := nd.(*ast.BinaryExpr)
+			if ok && (be.Op == token.LAND || be.Op == token.LOR) && simple(be.X) && simple(be.Y) {
+				be.X, be.Y = be.Y, be.X
+				n++
+			}
+			return true
+		})
+	case "kvorder":
+		// T{A: a, B: b} → T{B: b, A: a} for struct literals whose values have no effects
+		ast.Inspect(fd.Body, func(nd ast.Node) bool {
+			cl, ok := nd.(*ast.CompositeLit)
+			if !ok || len(cl.Elts) < 2 {
+				return true
+			}
+			t := info.TypeOf(cl)
+			if t == nil {
+				return true
+			}
+			if _, isStruct := t.Underlying().(*types.Struct); !isStruct {
+				return true
+			}
+			for _, e := range cl.Elts {
+				kv, ok := e.(*ast.KeyValueExpr)
+				if !ok {
+					return true
+				}
+				effect := false
+				ast.Inspect(kv.Value, func(m ast.Node) bool {
+					switch m.(type) {
+					case *ast.CallExpr, *ast.FuncLit, *ast.UnaryExpr:
+						effect = true
+					}
+					return true
+				})
+				if effect {
+					return true
+				}
+			}
+			for i, j := 0, len(cl.Elts)-1; i < j; i, j = i+1, j-1 {
+				cl.Elts[i], cl.Elts[j] = cl.Elts[j], cl.Elts[i]
+			}
+			n++
+			return true
+		})
+	case "caseorder":
+		// the clauses of a switch on a value with constant cases (and no fallthrough) in reverse order
+		ast.Inspect(fd.Body, func(nd ast.Node) bool {
+			sw, ok := nd.(*ast.SwitchStmt)
+			if !ok || sw.Tag == nil || len(sw.Body.List) < 2 {
+				return true
+			}
+			for _, st := range sw.Body.List {
+				cc := st.(*ast.CaseClause)
+				for _, e := range cc.List {
+					if tv, ok := info.Types[e]; !ok || tv.Value == nil {
+						return true
+					}
+				}
+				for _, b := range cc.Body {
+					if br, ok := b.(*ast.BranchStmt); ok && br.Tok == token.FALLTHROUGH {
+						return true
+					}
+				}
+			}
+			l := sw.Body.List
+			for i, j := 0, len(l)-1; i < j; i, j = i+1, j-1 {
+				l[i], l[j] = l[j], l[i]
+			}
+			n++
+			return true
+		})
+	case "inlinelocal":
+		// x := <effect-free expression>; <statement using x once>  →  the statement with the expression in place
+		uses := map[types.Object]int{}
+		for _, o := range info.Uses {
+			uses[o]++
+		}
+		astutil.Apply(fd.Body, func(c *astutil.Cursor) bool {
+			blk, ok := c.Node().(*ast.BlockStmt)
+			if !ok {
+				return true
+			}
+			var out []ast.Stmt
+			for i := 0; i < len(blk.List); i++ {
+				as, ok := blk.List[i].(*ast.AssignStmt)
+				if ok && as.Tok == token.DEFINE && len(as.Lhs) == 1 && len(as.Rhs) == 1 && i+1 < len(blk.List) && pure(as.Rhs[0]) {
+					lhs, _ := as.Lhs[0].(*ast.Ident)
+					if _, isLit := as.Rhs[0].(*ast.BasicLit); !isLit && lhs != nil && info.Defs[lhs] != nil && uses[info.Defs[lhs]] == 1 {
+						// the single use must be in the next statement, outside closures and loops
+						var at *ast.Ident
+						inside := false
+						switch nx := blk.List[i+1].(type) {
+						case *ast.ExprStmt, *ast.AssignStmt, *ast.ReturnStmt:
+							ast.Inspect(nx, func(m ast.Node) bool {
+								if _, isLit := m.(*ast.FuncLit); isLit {
+									return false
+								}
+								if id, ok := m.(*ast.Ident); ok && info.Uses[id] == info.Defs[lhs] {
+									at = id
+								}
+								return true
+							})
+							inside = at != nil
+						}
+						if inside {
+							done := false
+							astutil.Apply(blk.List[i+1], func(c2 *astutil.Cursor) bool {
+								if c2.Node() == ast.Node(at) && !done {
+									if _, isAssignLhs := c2.Parent().(*ast.AssignStmt); isAssignLhs && c2.Name() == "Lhs" {
+										return true
+									}
+									c2.Replace(as.Rhs[0])
+									done = true
+								}
+								return true
+							}, nil)
+							if done {
+								n++
+								continue
+							}
+						}
+					}
+				}
+				out = append(out, blk.List[i])
+			}
+			blk.List = out
+			return true
+		}, nil)
 	default:
 		fmt.Fprintln(os.Stderr, "unknown transform", tr)
 		os.Exit(2)
